@@ -1,6 +1,7 @@
 package c09
 
 import (
+	"crypto/sha256"
 	"encoding/binary"
 
 	"pgregory.net/rapid"
@@ -155,8 +156,13 @@ func init() {
 				rp := rapid.SampledFrom([]int{21, 21, 22, 23, 40, 13}).Draw(t, "rp")
 				seeded := rapid.IntRange(0, 1).Draw(t, "seeded")
 				fast := rf == 6 && rp == 21
-				return [][]byte{{byte(rf), byte(rp), byte(seeded)}, koalabearVals(t, w, "s")},
-					[]string{"p2_fast_params:" + b2s(fast), "p2_seeded:" + b2s(seeded == 1)}, true
+				// buffer length: the width, or a length the permutation must refuse on every code path
+				n := w
+				if rapid.IntRange(0, 9).Draw(t, "badlen") < 3 {
+					n = rapid.SampledFrom([]int{0, 1, w - 1, w + 1, 2 * w}).Draw(t, "n")
+				}
+				return [][]byte{{byte(rf), byte(rp), byte(seeded)}, koalabearVals(t, n, "s")},
+					[]string{"p2_fast_params:" + b2s(fast), "p2_seeded:" + b2s(seeded == 1), "p2_buffer_len_is_width:" + b2s(n == w)}, true
 			},
 			run: func(a [][]byte) [][]byte {
 				rf, rp := int(a[0][0]), int(a[0][1])
@@ -166,11 +172,21 @@ func init() {
 				} else {
 					h = poseidon2.NewPermutation(w, rf, rp)
 				}
-				v := koalabearElems(a[1])
-				if err := h.Permutation(v); err != nil {
-					return [][]byte{[]byte(err.Error())}
+				// the buffer sits inside a larger array: what lies behind it must not be touched
+				in := koalabearElems(a[1])
+				back := make([]fr.Element, len(in)+32)
+				copy(back, in)
+				for i := len(in); i < len(back); i++ {
+					back[i].SetUint64(uint64(i)*2654435761 + 7)
 				}
-				out := [][]byte{koalabearDump(v)}
+				v := back[:len(in):len(in)]
+				if err := h.Permutation(v); err != nil {
+					return [][]byte{[]byte(err.Error()), koalabearDump(back)}
+				}
+				out := [][]byte{koalabearDump(back)}
+				if len(v) != w {
+					return out
+				}
 				if w == 24 {
 					var m [24][16]fr.Element
 					for i := 0; i < 24; i++ {
@@ -228,6 +244,20 @@ func init() {
 			}
 			v := koalabearElems(a[2])
 			res := make([]fr.Element, r.Degree)
+			// the key material is exported (A, Ag): what the constructor leaves there, and what is there after
+			// hashing, is part of the result
+			keyDigest := func() []byte {
+				h := sha256.New()
+				for _, m := range [][][]fr.Element{r.A, r.Ag} {
+					h.Write(u32(len(m)))
+					for _, p := range m {
+						h.Write(u32(len(p)))
+						h.Write(koalabearDump(p))
+					}
+				}
+				return h.Sum(nil)
+			}
+			key0 := keyDigest()
 			switch a[0][2] {
 			case 1: // reuse the buffer of a previous hash
 				if err := r.Hash(v, res); err != nil {
@@ -241,7 +271,7 @@ func init() {
 			if err := r.Hash(v, res); err != nil {
 				return [][]byte{[]byte("hash: " + err.Error())}
 			}
-			return [][]byte{koalabearDump(res)}
+			return [][]byte{koalabearDump(res), key0, keyDigest()}
 		},
 	})
 }
